@@ -21,8 +21,10 @@ def run(ctx):
             ctx.seed += 1000
             ctx.corr(hx, ["run", "--n", "1500", "--free", "300"], cases_name="cases%d.v" % k, timeout=900)
         ctx.seed -= 5000
+        ctx.corr(hx, ["group", "--n", "1500", "--free", "150"], cases_name="gcases.v", timeout=900)
     else:
         ctx.corr(hx, ["run", "--n", "500", "--free", "60"], timeout=300)
+        ctx.corr(hx, ["group", "--n", "150", "--free", "20"], cases_name="gcases.v", timeout=300)
     ctx.assumptions += [
         "tasks terminate and block on nothing but their own nested Submit calls (harness: gated tasks are schedule restrictions of the runner, not part of the model's steps)",
         "at least one worker (WithWorkerCount >= 1)",
